@@ -15,8 +15,8 @@ while [ $SUITE -ne 0 ] && [ $TRIES -lt 3 ]; do  # timing-based itests can flake 
   TRIES=$((TRIES+1)); go test -vet=off -count=1 ./... > /tmp/mutcheck-$NAME.suite 2>&1; SUITE=$?
 done
 cp $DEMO $PKG/zz_mutdemo_test.go
-go test -vet=off -count=1 -run "$RX" ./$PKG/ > /tmp/mutcheck-$NAME.demo_with 2>&1; WITH=$?
+go test $DEMOFLAGS -vet=off -count=1 -run "$RX" ./$PKG/ > /tmp/mutcheck-$NAME.demo_with 2>&1; WITH=$?
 git apply -R $PATCH
-go test -vet=off -count=1 -run "$RX" ./$PKG/ > /tmp/mutcheck-$NAME.demo_without 2>&1; WITHOUT=$?
+go test $DEMOFLAGS -vet=off -count=1 -run "$RX" ./$PKG/ > /tmp/mutcheck-$NAME.demo_without 2>&1; WITHOUT=$?
 cd /; git -C /repo worktree remove --force $WT
 echo "{\"name\":\"$NAME\",\"build_rc\":$BUILD,\"suite_rc\":$SUITE,\"suite_tries\":$TRIES,\"demo_with_patch_rc\":$WITH,\"demo_without_patch_rc\":$WITHOUT}"
